@@ -114,6 +114,8 @@ def b_len(ex, args, kw):
         if m is not None:
             return ex.call_value(m, [], {})
     if isinstance(v, SV) and v.shape is ValS:
+        if getattr(ex.world, 'abstract_bytes', None) is not None:
+            return ex.world.abstract_bytes.length(ex, v)
         return ex.call_external('len<opaque>', [v], {})
     ex.raise_('TypeError', 'object has no len()')
 
